@@ -511,8 +511,16 @@ def s_curve(ctx, rng):  # noqa: PLR0912, PLR0915
         # the x-only sum of BIP340's batch verification (in-range scalars, x-coordinates: its caller's contract)
         if k >= 2 and kind in ("valid", "cancel"):
             L["mmultx"].append("dual.mmultx" + "".join(f" {m % N or 1} {Q[0]}" for m, Q in terms))
-    L["mmult"].append(f"dual.mmult 5 {f_pt(G)} 7")  # scalars/points mismatch is not expressible: left to the lattice
-    L["mmult"].pop()
+    # a scalar that is a multiple of n (0, n, 2n, -n) at every position of a 2- and a 3-term sum: the guard must read the
+    # REDUCED scalars (the bindings refuse a zero tweak with a bare ValueError)
+    for k in (2, 3):
+        pts = [g_point(rng) for _ in range(k)]
+        for pos in range(k):
+            for z in (0, N, 2 * N, -N, -2 * N):
+                sc = [g_scalar(rng) for _ in range(k)]
+                sc[pos] = z
+                ctx.count("mmult.class", f"multiple_of_n|k={k}")
+                L["mmult"].append("dual.mmult" + "".join(f" {m} {Q[0]} {Q[1]}" for m, Q in zip(sc, pts)))
     for a in (Qq, Hh):
         L["sum"].append(f"dual.sum {f_pt(a)} {a[0]} {P - a[1]}")
         L["sum"].append(f"dual.sum {f_pt(a)} {a[0]} {P - a[1]} {f_pt(Hh)}")
@@ -958,6 +966,46 @@ def s_bip32(ctx, rng):
     dual(ctx, "bip32.derive", L)
 
 
+class _FakeHmac:
+    """`hmac` as bip32.py sees it: a fixed digest for messages ending in one 4-byte index, the real one otherwise"""
+
+    def __init__(self, index, digest):
+        self.index, self.digest_ = index.to_bytes(4, "big"), digest
+
+    def new(self, key, msg, digestmod):
+        import hmac as _h  # noqa: PLC0415
+        real = _h.new(key, msg, digestmod)
+        if bytes(msg).endswith(self.index):
+            fake = self
+
+            class _D:
+                def digest(self):
+                    return fake.digest_
+            return _D()
+        return real
+
+
+def _bip32_mac(t):
+    old = bip32.hmac
+    bip32.hmac = _FakeHmac(int(t[2]), unhx(t[3]))
+    try:
+        return bip32.derive(t[0], t[1])
+    finally:
+        bip32.hmac = old
+
+
+def _commit_stub(t):
+    old = commit_nonce._tweak
+    if t[3] == "1":
+        commit_nonce._tweak = lambda _c, _r, _t, ec, _h: (ec.n - int(t[1])) % ec.n
+    try:
+        return commit_nonce.commit_nonce_(unhx(t[0]), int(t[1]), unhx(t[2]))
+    finally:
+        commit_nonce._tweak = old
+
+
+API["bip32.mac"] = _bip32_mac
+API["commit.stub"] = _commit_stub
 API["tap.outroot"] = lambda t: taproot.output_pubkey_from_merkle_root(unhx(t[0]), unhx(t[1]))
 API["tap.outpub"] = lambda t: taproot.output_pubkey(_key(t[0]) if t[0] != "-" else None, None)
 API["tap.prvroot"] = lambda t: taproot.output_prvkey_from_merkle_root(int(t[0]), unhx(t[1]))
@@ -1375,7 +1423,7 @@ def s_switch(ctx, rng):
 
 # ------------------------------------------------------------------ T2: verdict tables against the real code
 _VREP: dict[str, str] = {}
-PREDICATES = {"eng.dsa"}
+PREDICATES = {"eng.dsa", "tap.check", "musig", "eng.ssa"}
 
 
 def _impl_verdict(line: str) -> str:
@@ -1388,6 +1436,8 @@ def _impl_verdict(line: str) -> str:
         out = run_line(rep)
     if out.startswith("err foreign"):
         return "err foreign"
+    if api == "eng.tx" and out == "err script":
+        return "err value"  # a ScriptError is a BTClibValueError: the table speaks of "refused"
     if out.startswith("err"):
         return out
     if api in PREDICATES:
@@ -1473,6 +1523,84 @@ def s_verdict(ctx, rng, register_only=False):  # noqa: PLR0912, PLR0915
             for ck, kt in PUB.items():
                 reg("dsa.sign", [cs, cm, ck], f"dual.dsa.sign {hx(mm)} {m} - 1 1 1 {kt}")
             reg("ssa.sign", [cs, cm], f"dual.ssa.sign {hx(msg)} {m} {hx(mm)} 1")
+    # ---- second batch (Model/C04/Verdict2.lean)
+    root = common.rand_bytes(rng, 32)
+    for ck, key in XK.items():
+        reg("tap.outroot", [ck], f"dual.tap.outroot {hx(key)} {hx(root)}")
+    for ck, key in SEC.items():
+        # `output_pubkey` takes a `Key`: 32 octets would be read as a PRIVATE key, so the wrong length here is 34
+        reg("tap.outpub", [ck], f"dual.tap.outpub {hx(c + bytes(1) if ck == 'wrongLength' else key)}")
+        reg("ell.encode", [ck], f"dual.ell.encode {hx(key)}")
+    for cs, m in SCQ.items():
+        reg("tap.prvroot", [cs], f"dual.tap.prvroot {m} {hx(root)}")
+        reg("ell.create", [cs], f"dual.ell.create {m}")
+        for canc in ("0", "1"):
+            reg("commit", [cs, canc], f"dual.commit.stub {hx(root)} {m} {hx(b'tag')} {canc}")
+    from btclib.script import serialize as _ser  # noqa: PLC0415
+    tree = [[(0xC0, ["OP_1"])], [(0xC0, ["OP_2", "OP_DROP", "OP_1"])]]
+    with arm(True):
+        outq, _par = taproot.output_pubkey(c, tree)
+        script, control = taproot.input_script_sig(c, tree, 0)
+        sb, cb = _ser(script), bytes(control)
+    CTRL = {"valid": cb, "parityFlipped": bytes([cb[0] ^ 1]) + cb[1:], "otherKey": cb[:1] + G[0].to_bytes(32, "big") + cb[33:],
+            "pNotX": cb[:1] + nx.to_bytes(32, "big") + cb[33:], "pGeP": cb[:1] + (P + 3).to_bytes(32, "big") + cb[33:],
+            "badLength": cb[:-1], "tooLong": cb[:33] + bytes(32 * 129)}
+    for cq, qb in (("len32", outq), ("otherLength", b"\x02" + outq)):
+        for cc, ctl in CTRL.items():
+            reg("tap.check", [cq, cc], f"dual.tap.check {hx(qb)} {hx(sb)} {hx(ctl)}")
+    # BIP32: one step under a stubbed HMAC (IL >= n, the cancelling IL and the ordinary one)
+    from btclib.bip32 import BIP32KeyData  # noqa: PLC0415
+    kpar = rng.randrange(2, N)
+    ccode = common.rand_bytes(rng, 32)
+    xprv = BIP32KeyData(b"\x04\x88\xad\xe4", 0, bytes(4), 0, ccode, b"\x00" + kpar.to_bytes(32, "big")).b58encode()
+    xpub = BIP32KeyData(b"\x04\x88\xb2\x1e", 0, bytes(4), 0, ccode, sec_of(_PY_MULT(kpar))).b58encode()
+    xprv, xpub = (x if isinstance(x, str) else x.decode() for x in (xprv, xpub))
+    ILS = {"ok": rng.randrange(1, N - kpar - 1), "geN": N, "cancels": N - kpar}
+    H = 0x80000000
+    for cch, xk in (("prv", xprv), ("pub", xpub)):
+        for ci, (path, idx) in (("normal", ("m/5", 5)), ("hardened", ("m/5h", 5 + H))):
+            for cil, il in ILS.items():
+                reg("bip32", [cch, ci, cil], f"dual.bip32.mac {xk} {path} {idx} {hx(il.to_bytes(32, 'big') + ccode)}")
+    # MuSig2: one two-signer session per message length
+    for cm, mmsg in (("len32", msg), ("other", msg + b"\x00" * 6)):
+        prvs = [rng.randrange(1, N), rng.randrange(1, N)]
+        with arm(True):
+            pks = [sec_point.bytes_from_prv_key_int(x) for x in prvs]
+            sn, pn = zip(*[musig2.nonce_gen(x, pk, None, mmsg, None) for x, pk in zip(prvs, pks)])
+            agg = musig2.nonce_agg(pn)
+            sctx = musig2.SessionContext(agg, pks, [], [], mmsg)
+            ps0 = musig2.sign(bytearray(sn[0]), prvs[0], sctx)
+        PS = {"valid": ps0, "wrong": ((int.from_bytes(ps0, "big") + 1) % N).to_bytes(32, "big"), "geN": N.to_bytes(32, "big"),
+              "wrongLength": ps0[:-1]}
+        PN = {"valid": pn[0], "other": pn[1], "notPoint": b"\x02" + nx.to_bytes(32, "big") + pn[0][33:], "wrongLength": pn[0][:-1]}
+        SK = {"member": pks[0], "foreign": sec_of(g_point(rng)), "notPoint": b"\x02" + nx.to_bytes(32, "big"), "wrongLength": pks[0][1:]}
+        for cps, psb in PS.items():
+            for cpn, pnb in PN.items():
+                for csk, skb in SK.items():
+                    reg("musig", [cm, cps, cpn, csk], f"dual.musig.pverify {hx(psb)} {hx(pnb)} {hx(skb)} {hx(agg)} "
+                                                      f"{','.join(hx(x) for x in pks)} - {hx(mmsg)}")
+    # ElligatorSwift
+    with arm(True):
+        ea, eb = ellswift.create_var(q), ellswift.create_var(kpar)
+    ELL = {"len64": None, "other": None}
+    reg("ell.decode", ["len64"], f"dual.ell.decode {hx(ea)}")
+    reg("ell.decode", ["other"], f"dual.ell.decode {hx(ea[:-1])}")
+    for ca in ELL:
+        for cb_ in ELL:
+            for cp, party in (("zeroOrOne", rng.choice([0, 1])), ("outside", rng.choice([-1, 2, 7]))):
+                for cs, m in SCQ.items():
+                    reg("ell.xdh", [ca, cb_, cp, cs], f"dual.ell.xdh {hx(ea if ca == 'len64' else ea + b'x')} "
+                                                     f"{hx(eb if cb_ == 'len64' else eb[:-2])} {m} {party}")
+    # the engine's BIP340 wrapper (octets in)
+    SSB = {"valid": ss.serialize(), "wrong": ss.serialize()[:32] + (ss.s % (N - 1) + 1).to_bytes(32, "big"),
+           "outOfRange": ss.serialize()[:32] + N.to_bytes(32, "big"), "wrongLength": ss.serialize()[:-1]}
+    for ck, key in XK.items():
+        for cs, sb_ in SSB.items():
+            reg("eng.ssa", [ck, cs], f"dual.eng.ssa {hx(msg)} {hx(key)} {hx(sb_)}")
+    # whole transactions: Core's verdict, per vector, per arm
+    for kind, i in corpus():
+        if kind in ("tx_valid", "tx_invalid"):
+            reg("eng.tx", ["coreValid" if kind == "tx_valid" else "coreInvalid", str(i)], f"dual.eng.corpus {kind} {i}")
     # silent payments: one p2wpkh input paying one wallet
     c1 = sec_of(_PY_MULT(7))
     spk = b"\x00\x14" + _h160(c1)
@@ -1482,6 +1610,10 @@ def s_verdict(ctx, rng, register_only=False):  # noqa: PLR0912, PLR0915
         addr = addr if isinstance(addr, str) else addr.decode()
         ours = API["sp.out"]([f"7/{hx(spk)}", f"{'11' * 32}:0", addr])[0]
     base = f"dual.sp.scan {bs} {hx(sec_of(_PY_MULT(bp)))} {'11' * 32}:0 {hx(c1)}/{hx(spk)}"
+    zero_keys = f"5/{hx(spk)},{N - 5}/{hx(spk)}"
+    for ck, kt in (("ok", f"7/{hx(spk)}"), ("zero", zero_keys)):
+        for ca, at in (("none_", "-"), ("valid", addr), ("malformed", "sp1qqqq")):
+            reg("sp.out", [ck, ca], f"dual.sp.out {kt} {'11' * 32}:0 {at}")
     for cls, tok in (("none_", "-"), ("foreignX", hx(g_point(rng)[0].to_bytes(32, "big"))), ("ours", hx(ours)),
                      ("notX", hx(nx.to_bytes(32, "big"))), ("wrongLength", hx(ours[:-1]))):
         reg("sp.scan", [cls], f"{base} {tok} -")
@@ -1603,10 +1735,17 @@ def s_guard(ctx, rng, register_only=False):  # noqa: PLR0915
                     fin = sum(1 for p_ in pts if p_[1])
                     emit("sum__libsecp256k1_pubkey_sum", _curve, "libsecp256k1_pubkey_sum", serving,
                          lambda pts=pts, ec=ec: _curve._sum_var(pts, ec), ec_is_secp256k1=is_k1, n_finite_lt_2=fin < 2)
-                    sc = [rng.choice([0, rng.randrange(1, ec.n), rng.randrange(1, ec.n)]) for _ in range(k)]
+                    sc = [rng.choice([0, ec.n, -ec.n, 2 * ec.n, rng.randrange(1, ec.n), rng.randrange(1, ec.n), rng.randrange(1, ec.n)])
+                          for _ in range(k)]
                     emit("multi_mult__libsecp256k1_multi_mult", _curve, "_libsecp256k1_multi_mult", serving,
                          lambda pts=pts, sc=sc, ec=ec: _curve.multi_mult_var(sc, pts, ec), ec_is_secp256k1=is_k1, n_terms_gt_1=k > 1,
-                         all_terms_nonzero_finite=all(s_ and p_[1] for s_, p_ in zip(sc, pts)))
+                         all_terms_nonzero_finite=all(s_ % ec.n and p_[1] for s_, p_ in zip(sc, pts)))
+                # multiples of n among the RAW scalars: the guard reads the reduced ones
+                for sc in ([ec.n, 5], [7, -ec.n], [2 * ec.n, 3, 4], [ec.n + 1, 2 * ec.n - 1]):
+                    pts = [_curve.mult(rng.randrange(1, ec.n), ec.G, ec) for _ in sc]
+                    emit("multi_mult__libsecp256k1_multi_mult", _curve, "_libsecp256k1_multi_mult", serving,
+                         lambda pts=pts, sc=sc, ec=ec: _curve.multi_mult_var(sc, pts, ec), ec_is_secp256k1=is_k1, n_terms_gt_1=True,
+                         all_terms_nonzero_finite=all(s_ % ec.n for s_ in sc))
                 # x-coordinate questions
                 for x in (qpt[0], ec.p, ec.p + 5, -1, 0):
                     emit("is_x_coordinate__libsecp256k1_xonly_pubkey_verify", _curve, "libsecp256k1_xonly_pubkey_verify", serving,
@@ -1646,6 +1785,14 @@ def s_guard(ctx, rng, register_only=False):  # noqa: PLR0915
                      lambda qb=qb: taproot.check_output_pubkey(qb, b"\x51", b"\xc0" + G[0].to_bytes(32, "big")), q_len_32=len(qb) == 32)
     if register_only:
         return
+    # coverage report of T1 (domain_from_guard_alone / handler_sites_need_their_handler), per site
+    rep = ctx.model(EXE, ["sites"])
+    if rep and rep[0].startswith("ok "):
+        for ent in rep[0][3:].split(" "):
+            nm, _, frm = ent.partition("=")
+            ctx.count("site.domain_from", f"{nm}: {frm.replace('_', ' ')}")
+            ctx.count("site.domain_from.summary", frm.replace("_", " "))
+            ctx.count("site.correspondence", f"{nm}: " + ("guard.* stream (observed delegation)" if nm in lines_by_site else "AST only"))
     for site, lines in lines_by_site.items():
         ctx.stream(f"guard.{site}", lines, nontrivial=lambda _l, out: out == "ok 1")
 
